@@ -219,9 +219,21 @@ def generate(ctx):
             elif st[0] == "assign" and st[1] not in cur:
                 cur.append(st[1])
         t = rng.random()
-        if t < 0.4:
+        if t < 0.2 and len(cur) >= 2:
+            # two DIFFERENT columns under one operator: the result has no name (`matchName`)
+            x, y = rng.sample(cur, 2)
+            op = rng.choice(["add", "sub", "mul", "lt", "ge", "eq", "ne"])
+            e = [op, ["col", x], ["col", y] if rng.random() < 0.7 else ["mul", ["col", y], ["lit", 2]]]
+            inp["tail"] = ["sexpr", e] if rng.random() < 0.7 else ["sfilter", e if op in ("add", "sub", "mul") else ["col", x],
+                                                                   [rng.choice(["gt", "le"]), ["col", y], ["lit", 1]]]
+        elif t < 0.3:
+            # `~(x <cmp> k)`, `~(x <cmp> y)`: Invert keeps the name of its operand (a name or None)
+            x = rng.choice(cur)
+            rhs = ["lit", rng.randint(-1, 3)] if rng.random() < 0.6 else ["col", rng.choice(cur)]
+            inp["tail"] = ["sexpr", ["not", [rng.choice(["lt", "ge", "eq"]), ["col", x], rhs]]]
+        elif t < 0.45:
             inp["tail"] = ["sexpr", c43.gen_sexpr(rng, cur, 2, rng.random() < 0.35)]
-        elif t < 0.6:
+        elif t < 0.65:
             inp["tail"] = ["sfilter", c43.gen_sexpr(rng, cur, 1, False), c43.gen_sexpr(rng, cur, 1, True)]
         inp["ixname"] = rng.choice(IDX_NAMES)
         inp["ixkind"] = rng.choice(IDX_KINDS)
